@@ -10,7 +10,9 @@ constants, data rx1_delay and rx1_delay + 1000), del_to_delay_ms over all 256 in
 interpretation, async start = delay + TxDone time - lead time, nb t1 = delay + timestamp + offset and the second
 window at +(delay2 - delay1); both front-ends use Window::_1 for the first and Window::_2 for the second window;
 (d) only Mac::{rx_windows, rx2_rf_config, build_rf_config} consult the regional RX tables; Class C uses the RX2
-configuration. Not decided: the regional RX1 data-rate tables against the specification text (printed, not judged)."""
+configuration; (e) the regional RX1 data-rate table (every defined uplink rate x every RX1DROffset), the RX2 default
+frequency and data rate and the RX1DROffset range of each region equal the regional parameters document (oracle
+frozen in props/regional.py; cells on which published revisions differ accept either value)."""
 import re
 from ..runner import Result, CheckError
 from .. import rules, flow, layout
@@ -429,9 +431,10 @@ def run(tier):
     okc = len(cs) == 1 and field_path(term_of_operand(bf, cs[0][1].args[1])) == (('param', 1), ['configuration', 'data_rate'])
     res.require(okc, 'C10:get_rxc_config', 'Class C listening does not use the RX2 configuration for the current data rate', bf.body.path, 'PROVENANCE(RXC = RX2)',
                 instance='Class C: rx2_rf_config(configuration.data_rate), continuous')
-    # regional RX1 tables: printed for inspection, not judged
-    res.coverage.update({'configs': [c.info], 'del_to_delay_ms_table': {str(k): v for k, v in sorted(tab.items()) if k < 17},
-                         'not_judged': 'per-region get_rx_datarate tables and DEFAULT_RX2_FREQ values are not compared with the regional parameters document'})
+    # regional RX1 tables, RX2 defaults and the RX1DROffset range against the regional parameters document (frozen oracle)
+    from . import regional
+    regional.check(c, res, PID, {'rx1', 'rx2'})
+    res.coverage.update({'configs': [c.info], 'del_to_delay_ms_table': {str(k): v for k, v in sorted(tab.items()) if k < 17}})
     res.explanation = __doc__
     res.assumptions = ['delays 5000/6000/1000 ms and the RxDelay nibble table are frozen from LoRaWAN 1.0.x; TxDone time, lead time and offsets are supplied by the board (environment)']
     return res
